@@ -189,6 +189,17 @@ OutOfIdeal(t) == IF IsDup(t) THEN [err |-> "duplicate"] ELSE [ok |-> ObsTop(AsCf
 NormSeq(opts, gv)  == OutOfSeq(SeqVal(opts, gv))
 NormIdeal(gv)      == OutOfIdeal(IdealVal(gv))
 Conflict(gv)       == gv.g = "m" /\ (IsDup(IdealVal(gv)) \/ AnyNilMeet(gv.es, Empty))
+\* under a non-default policy two entries that meet in one sub-config are combined BY THAT POLICY
+\* (lists appended, dictionaries replaced), which again depends on the visiting order
+SharesSub(t1, t2) ==
+  /\ t1.k = "n" /\ t2.k = "n"
+  /\ \/ \E key \in DOMAIN t1.d \cap DOMAIN t2.d : IsSubT(t1.d[key]) /\ IsSubT(t2.d[key])
+     \/ \E i \in 1..Min(Len(t1.a), Len(t2.a)) : IsSubT(t1.a[i]) /\ IsSubT(t2.a[i])
+AnyShares(es) ==
+  \E i, j \in 1..Len(es) : i < j /\ ~IsDup(IdealVal(es[i][2])) /\ ~IsDup(IdealVal(es[j][2])) /\
+       SharesSub(Single(Fields(es[i][1]), IdealVal(es[i][2])), Single(Fields(es[j][1]), IdealVal(es[j][2])))
+ConflictP(pol, gv) == Conflict(gv) \/ (pol # "default" /\ gv.g = "m" /\ AnyShares(gv.es))
+
 \* Normalize under a deviation set, for a given visiting order
 Normalize(D, opts, gv) == IF "DupDependsOnOrder" \in D THEN NormSeq(opts, gv) ELSE NormIdeal(gv)
 
